@@ -109,3 +109,29 @@ def _apply_blind(m: ModelStorage, op: dict, e: EnvState) -> bool:
 
 def _expected_ok(k: str) -> Any:
     return True if k == "set_trial_state_values" else None
+
+
+def read_matches_some_state(history: list[dict], order: list[int], model: ModelStorage, env: EnvState, read: dict) -> bool:
+    """Does the result of `read` equal what the model returns in *some* state along the
+    linearization `order` of `history` (the writes)?  A read that matches an earlier state is
+    a stale but consistent snapshot; one that matches no state at all is torn."""
+    m, e = model.clone(), env.clone()
+
+    def ok_now() -> bool:
+        e2 = e.clone()
+        c = opsmod.apply_model(m.clone(), read["op"], e2, read["res"])
+        return c[0] == "ok" and not e2.violations
+
+    if ok_now():
+        return True
+    for i in order:
+        h = history[i]
+        if h["op"]["op"].startswith("get_"):
+            continue
+        if h["ret"] is None:
+            _apply_blind(m, h["op"], e)
+        else:
+            opsmod.apply_model(m, h["op"], e, h["res"])
+        if ok_now():
+            return True
+    return False
